@@ -81,7 +81,7 @@ ASSUMPTIONS = [
     "the shrinker only names the mechanism; the verdict comes from the unshrunk program",
 ]
 BUDGET = {"quick": 75, "thorough": 600}
-CASE_TIMEOUT = 90
+CASE_TIMEOUT = 240
 EXHAUSTIVE_SPACE = ("all 24 orderings of the 4 steps {x[['a','d']], x[x.a > 0], x.assign(a = x.d - x.a), x[x.a < 2]} x 3 "
                     "partitionings (1 partition; 3 partitions with known divisions; 4 row slices incl. an empty one with "
                     "unknown divisions), each checked at all 9 evaluation points")
